@@ -621,6 +621,7 @@ func (mgr *Manager) invalidateTags(updatedStreams, resetStreams, addedStreams bi
 }
 
 func (mgr *Manager) importPcapJob(filenames []string, nextStreamID uint64, existingIndexes []*index.Reader, existingIndexesReleaser indexReleaser) {
+	verifGate("import.start")
 	processedFiles, usedNewStreamIDs, createdIndexes, updatedStreams, resetStreams, addedStreams, err := mgr.builder.FromPcap(mgr.PcapDir, filenames, existingIndexes)
 	if err != nil {
 		log.Printf("importPcapJob(%q) failed: %s", filenames, err)
@@ -639,6 +640,7 @@ func (mgr *Manager) importPcapJob(filenames []string, nextStreamID uint64, exist
 		newStreamCount += idx.StreamCount()
 		newPacketCount += idx.PacketCount()
 	}
+	verifGate("import.done")
 	mgr.jobs <- func() {
 		mgr.allStreams = allStreams
 		existingIndexesReleaser.release(mgr)
@@ -742,6 +744,7 @@ outer:
 }
 
 func (mgr *Manager) mergeIndexesJob(offset int, indexes []*index.Reader, releaser indexReleaser) {
+	verifGate("merge.start")
 	mergedIndexes, err := index.Merge(mgr.IndexDir, indexes)
 	if err != nil {
 		indexFilenames := []string{}
@@ -759,6 +762,7 @@ func (mgr *Manager) mergeIndexesJob(offset int, indexes []*index.Reader, release
 		streamsDiff -= idx.StreamCount()
 		packetsDiff -= idx.PacketCount()
 	}
+	verifGate("merge.done")
 	mgr.jobs <- func() {
 		// replace old indexes if successfully created
 		if len(mergedIndexes) == 0 || err != nil {
@@ -791,6 +795,7 @@ func (mgr *Manager) mergeIndexesJob(offset int, indexes []*index.Reader, release
 }
 
 func (mgr *Manager) updateTagJob(name string, t tag, tagDetails map[string]query.TagDetails, converters map[string]index.ConverterAccess, indexes []*index.Reader, releaser indexReleaser) {
+	verifGate("tag.start")
 	err := func() error {
 		q, err := query.Parse(t.definition)
 		if err != nil {
@@ -812,6 +817,7 @@ func (mgr *Manager) updateTagJob(name string, t tag, tagDetails map[string]query
 		t.Matches = bitmask.LongBitmask{}
 	}
 	t.Uncertain = bitmask.LongBitmask{}
+	verifGate("tag.done")
 	mgr.jobs <- func() {
 		// don't touch the tag if it was modified
 		if ot, ok := mgr.tags[name]; ok && ot.definition == t.definition {
@@ -1422,6 +1428,7 @@ func (mgr *Manager) startConverterJobIfNeeded() {
 }
 
 func (mgr *Manager) convertStreamJob(allConverters []*converters.CachedConverter, allStreamIDs []*bitmask.LongBitmask, indexes []*index.Reader, releaser indexReleaser) {
+	verifGate("convert.start")
 	type job struct {
 		streamID  uint64
 		converter int
@@ -1537,6 +1544,7 @@ func (mgr *Manager) convertStreamJob(allConverters []*converters.CachedConverter
 		}
 	}
 
+	verifGate("convert.done")
 	mgr.jobs <- func() {
 		mgr.converterJobRunning = false
 
